@@ -23,6 +23,9 @@ func init() {
 	reg(&Rule{ID: "R-GSAP-BOTH", Min: 4,
 		Doc: "GSAP: both suffix-array neighbours of the current rank are queried (two distinct query functions, same rank), each hit is measured with lcp(p[f:], p[i:]) on the block-clipped data exactly when the query succeeded, and the emitted MatchLen is the maximum of the measured lengths",
 		Run: ruleGsapBoth})
+	reg(&Rule{ID: "R-GSAP-COVERED", Min: 4,
+		Doc: "GSAP: elements of the suffix array and its inverse are accessed in Parse only after the coverage point (W+n ≤ len(sa) tested or the arrays rebuilt), or with an index locally proved to be in range — never on the blk == nil side or before the test",
+		Run: ruleGsapCovered})
 	reg(&Rule{ID: "R-GSAP-REBUILD", Min: 4,
 		Doc: "GSAP: the block is scanned only when W+n ≤ len(sa) or after a rebuild; the rebuild sizes sa and isa to len(Data), inverts sa, clears the search set and inserts the ranks of all positions < W",
 		Run: ruleGsapRebuild})
@@ -1224,4 +1227,82 @@ func rangeIndexOfSame(val, elem ssa.Value) bool {
 	}
 	ia, ok := ld.X.(*ssa.IndexAddr)
 	return ok && stripConv(ia.Index) == val
+}
+
+// ---------------------------------------------------------------- R-GSAP-COVERED
+
+// coveragePoint: the block after the rebuild guard of Parse (merge of the
+// "rebuilt" and "W+n ≤ len(sa)" paths).
+func (g *gsapInfo) coveragePoint() *ssa.BasicBlock {
+	if g.sortC == nil {
+		return nil
+	}
+	fi := g.fi
+	sb := g.sortC.Block()
+	var pre *ssa.BasicBlock
+	for _, p := range g.scan.L.Header.Preds {
+		if !g.scan.L.Blocks[p] {
+			pre = p
+		}
+	}
+	m := pre
+	for m != nil && !(len(m.Preds) >= 2 && fi.reach[sb][m] || m == sb) {
+		m = m.Idom()
+	}
+	return m
+}
+
+func ruleGsapCovered(c *Ctx) {
+	g := c.gsapOrFail("gsap")
+	if g == nil {
+		return
+	}
+	if g.saF == nil || g.isaF == nil {
+		c.fail("gsap:covered", token.NoPos, "suffix array fields not resolved")
+		return
+	}
+	m := g.coveragePoint()
+	if m == nil {
+		c.fail("gsap:covered", token.NoPos, "coverage point (rebuild guard) not found")
+		return
+	}
+	n := 0
+	var fns []*ssa.Function
+	for fn := range c.reachable(g.p.Parse) {
+		fns = append(fns, fn)
+	}
+	sort.Slice(fns, func(i, j int) bool { return fns[i].String() < fns[j].String() })
+	for _, fn := range fns {
+		if fn.Pkg != c.lz || fn == g.sortFn || c.reachable(g.sortFn)[fn] {
+			continue
+		}
+		fi := c.info(fn)
+		var blocks []*ssa.BasicBlock
+		blocks = append(blocks, fn.Blocks...)
+		for _, b := range blocks {
+			for _, in := range b.Instrs {
+				ia, ok := in.(*ssa.IndexAddr)
+				if !ok {
+					continue
+				}
+				f := loadedField(ia.X)
+				if f != g.saF && f != g.isaF {
+					continue
+				}
+				n++
+				key := fmt.Sprintf("%s:%s-access#%d", fnName(fn), f.Name(), n)
+				if fn == g.scan.Fn && (b == m || m.Dominates(b)) {
+					c.ok(key, ia.Pos(), "%s[%s] is read after the coverage point", f.Name(), fi.lin(ia.Index))
+					continue
+				}
+				idx := fi.lin(ia.Index)
+				inRange := fi.proveAt(idx.addc(1).sub(fi.lenOf(ia.X)), b, nil) && fi.proveAt(idx.scale(-1), b, nil)
+				c.check(inRange, key, ia.Pos(), fmt.Sprintf("%s[%s] in range by local facts", f.Name(), idx),
+					fmt.Sprintf("%s[%s] is accessed outside the region where the suffix array is known to cover the block (before the W+n ≤ len(sa) test / on the blk == nil side) and the index is not locally proved to be < len(%s): index out of range panic when the block straddles the end of a stale suffix array", f.Name(), idx, f.Name()))
+			}
+		}
+	}
+	if n == 0 {
+		c.fail("gsap:covered", token.NoPos, "no element access of the suffix arrays found")
+	}
 }
